@@ -217,6 +217,13 @@ func (g *Gen) callRulesPost(matched []*CallRule, c *ssa.CallCommon, results []Va
 			g.note(fmt.Sprintf("assumed at call of %s in %s: %s", calleeName(c), g.key, cl.Src))
 		}
 		for _, s := range r.Sets {
+			if tn, isG := g.W.globalGhosts[s.Var]; isG {
+				srt, gt := g.specType(tn, g.fn.Pkg.Pkg)
+				old := g.heapGet(st, "GG_"+s.Var, srt.SMT())
+				nv := g.coerce(env.eval(s.E), srt, gt)
+				st.heap["GG_"+s.Var] = g.define("gg", srt, sIte(cond, nv.T, old))
+				continue
+			}
 			old, ok := st.ghosts[s.Var]
 			if !ok {
 				g.errorf("set of undeclared ghost %s", s.Var)
@@ -347,8 +354,10 @@ func (g *Gen) doCall(x *ssa.Call, c *ssa.CallCommon, st *State) []Val {
 
 // havocForCall: an uncontracted call may write any heap location reachable from its arguments;
 // over-approximated by all heap maps. Locals whose address was passed are havoc'd too.
-func (g *Gen) havocForCall(c *ssa.CallCommon, st *State) {
-	g.havocHeap(st, nil)
+func (g *Gen) havocForCall(c *ssa.CallCommon, st *State) { g.havocForCallG(c, st, false) }
+
+func (g *Gen) havocForCallG(c *ssa.CallCommon, st *State, ghosts bool) {
+	g.havocHeapG(st, nil, ghosts)
 	for _, a := range c.Args {
 		if ad, ok := g.addrs[a]; ok {
 			g.havocAddr(ad, st)
@@ -552,6 +561,15 @@ func (g *Gen) applyContract(spec *FuncSpec, c *ssa.CallCommon, st *State) []Val 
 		for _, p := range callee.Params {
 			paramNames = append(paramNames, p.Name())
 		}
+		if len(callee.Params) == 0 {
+			// function without a body (package loaded from export data): names from the signature
+			if r := callee.Signature.Recv(); r != nil {
+				paramNames = append(paramNames, r.Name())
+			}
+			for i := 0; i < callee.Signature.Params().Len(); i++ {
+				paramNames = append(paramNames, callee.Signature.Params().At(i).Name())
+			}
+		}
 	} else {
 		// interface method: receiver named "recv", params by signature names
 		paramNames = append(paramNames, "recv")
@@ -597,7 +615,7 @@ func (g *Gen) applyContract(spec *FuncSpec, c *ssa.CallCommon, st *State) []Val 
 	// havoc assigns
 	if !spec.HasAssigns {
 		if !spec.Pure {
-			g.havocForCall(c, st)
+			g.havocForCallG(c, st, true)
 		}
 	} else {
 		g.havocAssigns(spec, env, st, callee, c)
@@ -621,6 +639,10 @@ func (g *Gen) applyContract(spec *FuncSpec, c *ssa.CallCommon, st *State) []Val 
 			continue // refuted clauses (known findings) are never assumed
 		}
 		g.assume(st.reach, post.evalBool(cl.E))
+	}
+	for _, cl := range spec.TrustedEnsures {
+		g.assume(st.reach, post.evalBool(cl.E))
+		g.note(fmt.Sprintf("TRUSTED postcondition of %s assumed at call sites (not checked against its body): %s", spec.Name, cl.Src))
 	}
 	return res
 }
@@ -649,7 +671,7 @@ func (g *Gen) havocAssigns(spec *FuncSpec, env *SpecEnv, st *State, callee *ssa.
 	for _, a := range spec.Assigns {
 		switch {
 		case a.All:
-			g.havocForCall(c, st)
+			g.havocForCallG(c, st, true)
 			return
 		case a.Map != "":
 			var name string
